@@ -92,6 +92,10 @@ TSameOK(e) ==
               SumSeq(e.sr, [i \in DOMAIN e.pairs |-> IF e.pairs[i] = <<x, z>> THEN One(e.sr) ELSE Zero(e.sr)])
       [] e.fn = "xsec_in" -> AWeight(e.sr, e.out, z) = TWeight(e.sr, e.T, e.fix, z)     \* f(x, None)(z)
       [] e.fn = "xsec_out" -> AWeight(e.sr, e.out, x) = TWeight(e.sr, e.T, x, e.fix)    \* f(None, y)(x)
+      [] e.fn = "prune" ->       \* prune_to_alphabet(A, B): only arcs whose labels are allowed (epsilon included) remain
+           TWeight(e.sr, e.out, x, z) =
+             TWeight(e.sr, [n |-> e.T.n, I |-> e.T.I, F |-> e.T.F,
+                            arcs |-> SelectSeq(e.T.arcs, LAMBDA r : r[2] \in SetOf(e.keepA) /\ r[3] \in SetOf(e.keepB))], x, z)
       [] e.fn = "project0" -> AWeight(e.sr, e.out, x) = AWeight(e.sr, Project(e.T, 0), x)
       [] e.fn = "project1" -> AWeight(e.sr, e.out, z) = AWeight(e.sr, Project(e.T, 1), z)
 
@@ -130,7 +134,7 @@ InDomainOut(e) ==
     [] e.op = "tobytes" -> AExact(e.sr, e.out)
     [] e.op = "gtobytes" -> InsideExact(e.sr, e.out)
     [] e.op = "tcompose" -> IsFinSR(e.sr) \/ TExact(e.sr, e.out)
-    [] e.op = "tsame" -> IsFinSR(e.sr) \/ (IF e.fn \in {"transpose", "diag", "pairs"} THEN TExact(e.sr, e.out)
+    [] e.op = "tsame" -> IsFinSR(e.sr) \/ (IF e.fn \in {"transpose", "diag", "pairs", "prune"} THEN TExact(e.sr, e.out)
                                             ELSE AExact(e.sr, e.out))
     [] e.op = "gcompose" -> InsideExact(e.sr, e.out)
     [] e.op = "truncate" -> InsideExact(e.sr, e.out)
